@@ -1635,6 +1635,26 @@ func (b *boundsAnalysis) collect(fn *core.Func, n ast.Node, facts factSet, inSco
 			if x.High != nil {
 				hi, okHi = b.linearise(x.High)
 			}
+			// s[lo:min(a, b)]: high <= len holds if either operand is within the length;
+			// low <= high needs both operands
+			if call, isCall := ast.Unparen(x.High).(*ast.CallExpr); x.High != nil && isCall && p.Builtin(call) == "min" && len(call.Args) == 2 && ok && okLo {
+				a1, okA := b.linearise(call.Args[0])
+				a2, okB := b.linearise(call.Args[1])
+				if okA && okB {
+					if x.Low != nil {
+						s.goals = append(s.goals, lo)
+						s.gdesc = append(s.gdesc, "low >= 0")
+					}
+					s.goals = append(s.goals, a1.add(lo, -1), a2.add(lo, -1))
+					s.gdesc = append(s.gdesc, "low <= high", "low <= high")
+					if !b.prove(ln.add(a1, -1), facts) && !b.prove(ln.add(a2, -1), facts) {
+						s.goals = append(s.goals, ln.add(a1, -1))
+						s.gdesc = append(s.gdesc, "high <= len")
+					}
+					*sites = append(*sites, s)
+					return true
+				}
+			}
 			if !ok || !okLo || !okHi {
 				s.goals = append(s.goals, lin{co: map[string]int64{"<nonlinear>": 1}, k: -1})
 				s.gdesc = append(s.gdesc, "bounds not linear")
